@@ -427,7 +427,6 @@ func (t *smtpTS) EvalBool(v ssa.Value, c eng.TSConfig) (bool, bool) {
 	return false, false
 }
 
-
 // ResolveCallee: a handler taken from a package-level table keyed by the session state.
 func (t *smtpTS) ResolveCallee(call *ssa.Call, c eng.TSConfig) *ssa.Function {
 	return eng.TableCallee(call.Call.Value, func(idx ssa.Value) (int64, bool) {
